@@ -65,6 +65,17 @@ def edit_spec(rng, spec, sel):
             it.ptr = False
             it.deflt = ""
             return s, "change the type of %s.%s" % (st.name, it.name)
+        if k < 0.9:
+            # type-level directive: a whole accessor interface of the type appears / disappears (what embedders embed)
+            embedded = {it.tname for x in structs for it in x.items if isinstance(it, histgen.Embed)}
+            tgt = rng.choice([x for x in structs if x.name in embedded and x.name in sel] or [st])
+            if tgt.dgetter or tgt.dsetter:
+                tgt.dgetter = tgt.dsetter = False
+            elif rng.random() < 0.5:
+                tgt.hasdoc, tgt.dgetter = True, True
+            else:
+                tgt.hasdoc, tgt.dsetter = True, True
+            return s, "toggle the type-level getter/setter directive of %s" % tgt.name
         cands = [it for it in own if not it.name[:1].isupper()]
         if cands:
             it = rng.choice(cands)
@@ -400,6 +411,38 @@ def handlers(run, shoot):
             "K_aio_overlay_stale": aio_stale, "K_getgofile_ambiguous": getgofile}
 
 
+def corpus_histories(start):
+    """fixed histories for classes the random stream reaches rarely"""
+    S, E, F = histgen.Struct, histgen.Embed, histgen.SField
+    res = []
+
+    def point(spec, edit=None, desc=None, delete=False):
+        return {"edit": edit, "edit_desc": desc, "delete": delete, "spec": spec}
+    # (1) new -json -type=*: the second run lists the types of the first run's output too; the helper struct of the JSON
+    # code (_json_T) must not be picked up as a type to construct (repeat = fresh)
+    fj = histgen.HFile("user.go", [S("User", [F("name", "string"), F("age", "int", jsontag="jage"), F("Open", "bool")]),
+                                    S("Acct", [F("id", "int64"), F("memo", "string")])])
+    pj = histgen.Pkg("new", "p", [fj], ["-getset", "-json"])
+    cj = pj.cmd_star()
+    fj.gen.append("//go:generate go run github.com/lopolopen/shoot/cmd/shoot " + " ".join(cj.argv()))
+    fj.gen.append("//go:generate go run github.com/lopolopen/shoot/cmd/shoot " + " ".join(cj.argv()) + " ./p")
+    res.append(Case(start, pj, cj, ["User", "Acct"], [point(pj), point(pj), point(pj), point(pj, delete=True)]))
+    # (2) new -getset, one file per type, Son embeds Base and comes after it: the accessor interfaces of Base change
+    # (type-level getter directive: BaseSetter disappears) while the old output stays in place; Son must be generated
+    # against the NEW interfaces of Base (overlay + reload after Base), as in a fresh run
+    def chain(dgetter, dsetter):
+        fb = histgen.HFile("base.go", [S("Base", [F("z", "string"), F("b", "int")], hasdoc=dgetter or dsetter,
+                                         dgetter=dgetter, dsetter=dsetter),
+                                       S("Son", [E("Base"), F("k", "string")])])
+        return histgen.Pkg("new", "p", [fb], ["-getset"])
+    v0, v1, v2 = chain(False, False), chain(True, False), chain(False, True)
+    for k, cmd in enumerate((v0.cmd_types(["Base", "Son"]), v0.cmd_file("base.go", sep=True))):
+        res.append(Case(start + 1 + k, v0, cmd, ["Base", "Son"],
+                        [point(v0), point(v1, v1, "type-level getter directive on Base"), point(v1),
+                         point(v2, v2, "type-level setter directive on Base"), point(v0, v0, "no type-level directive")]))
+    return res
+
+
 # ------------------------------------------------------------------ main
 def main(run):
     proof_ok = run.prove("Properties/C07.v", ["Corr/GenCorr.v"])
@@ -412,10 +455,13 @@ def main(run):
         for _ in range(plan[sub]):
             cases.append(make_case(run.rng, len(cases), sub))
     import c08
+    cases += corpus_histories(len(cases))
     for cc in c08.corpus_cases(0):
         # fresh, repeat, delete the output and run
         pts = [{"edit": None, "edit_desc": None, "delete": d, "spec": cc.spec} for d in (False, False, True)]
         names = {s.name for s in cc.spec.structs()}
+        if "Delta" in names:
+            continue                       # the ambiguous-promoted-name shapes stay with C08
         cmds = [cc.aio] if (cc.spec.sub == "map" or "Leaf" in names) else ([cc.aio, cc.perms[0]] if "Mid" in names else [cc.perms[0]])
         for cmd in cmds:
             cases.append(Case(len(cases), cc.spec, cmd, cc.sel, [dict(p) for p in pts]))
